@@ -78,10 +78,11 @@ def _len(ex, e, args, kwargs, p):
 
 @lib("str", "A-cpython")
 def _str(ex, e, args, kwargs, p):
+    from .terms import as_str_term
     a = args[0]
     if isinstance(a, PyC) and isinstance(a.v, str):
         return [(a, p)]
-    return [(app("py_str", asV(a)), p)]
+    return [(as_str_term(a), p)]
 
 
 @lib("repr", "A-cpython")
@@ -417,11 +418,22 @@ for _n in ("antlr4.FileStream", "antlr4.InputStream", "antlr4.CommonTokenStream"
 
 @method("format", "A-cpython")
 def _format(ex, e, obj, args, kwargs, p):
+    from .terms import format_term
+    if isinstance(obj, PyC) and isinstance(obj.v, str) and not kwargs:
+        return [(format_term(obj.v, list(args)), p)]
     return [(app("py_format%d" % len(args), asV(obj), *[asV(a) for a in args]), p)]
 
 
 @method("join", "A-cpython")
 def _strjoin(ex, e, obj, args, kwargs, p):
+    from .terms import strcat, as_str_term
+    if isinstance(obj, PyC) and isinstance(obj.v, str) and isinstance(args[0], Tup):
+        parts = []
+        for i, it in enumerate(args[0].items):
+            if i:
+                parts.append(obj.v)
+            parts.append(it if isinstance(it, PyC) and isinstance(it.v, str) else asV(it))
+        return [(strcat(parts), p)]
     return [(app("py_join", asV(obj), asV(args[0])), p)]
 
 
